@@ -7,6 +7,7 @@ static uv::Cmd cmds[] = {
 	{"serial", cmd_serial},
 	{"api", cmd_api},
 	{"dq", cmd_dq},
+	{"threads", cmd_threads},
 	{"json", cmd_json},
 	{"promela", cmd_promela},
 	{"lua", cmd_lua},
